@@ -462,6 +462,23 @@ func (fc *FnCtx) noteCmpString(a Val) {
 
 // callResult finds the value of the latest call to the named function dominating the current point.
 func (fc *FnCtx) callResult(name string) (Val, bool) {
+	best := fc.latestCall(name)
+	if best == nil {
+		return Val{}, false
+	}
+	return fc.vals[best], true
+}
+
+// callArg: the k-th argument (receiver excluded for interface calls) of the latest dominating call to name.
+func (fc *FnCtx) callArg(name string, k int) (Val, bool) {
+	best := fc.latestCall(name)
+	if best == nil || k < 0 || k >= len(best.Call.Args) {
+		return Val{}, false
+	}
+	return fc.val(best.Call.Args[k]), true
+}
+
+func (fc *FnCtx) latestCall(name string) *ssa.Call {
 	var best *ssa.Call
 	for _, b := range fc.fn.Blocks {
 		if b != fc.curBlock && !b.Dominates(fc.curBlock) {
@@ -493,10 +510,7 @@ func (fc *FnCtx) callResult(name string) (Val, bool) {
 			}
 		}
 	}
-	if best == nil {
-		return Val{}, false
-	}
-	return fc.vals[best], true
+	return best
 }
 
 // checkFrame: a declared frame (pure / modifies / writes) of a function under contract is verified
